@@ -27,7 +27,7 @@ func (c12) regularCases(tier string) int {
 	}
 	return len(families) + 5000
 }
-func (p c12) NumCases(tier string) int { return p.regularCases(tier) + tinyCases(tier) }
+func (p c12) NumCases(tier string) int               { return p.regularCases(tier) + tinyCases(tier) }
 func (c12) Extra(tier string) map[string]interface{} { return tinyExtra(tier) }
 func (c12) Rule() string {
 	return "case = one grammar: curated families, random grammars (not filtered), and injections (undefined identifier in a rhs; nonterminal without rules used in a rhs or as start symbol; unproductive nonterminal as start / deep in a chain / in a mutually recursive pair / unreachable; the same shapes repaired by one epsilon or terminal rule); reference = productive/defined fixpoints over the specification; yaccgo must build tables iff the reference says usable, and a refusal must be an error value or message panic, never a runtime error; non-trivial = injected case or random grammar that is unusable; distinct by grammar text"
@@ -49,7 +49,7 @@ func injectC12(r *rand.Rand, g *spec.Grammar) string {
 		p := r.Intn(len(ru.Rhs) + 1)
 		ru.Rhs = append(ru.Rhs[:p], append([]spec.Sym{s}, ru.Rhs[p:]...)...)
 	}
-	kind := r.Intn(12)
+	kind := r.Intn(15)
 	switch kind {
 	case 0: // undefined identifier
 		g.Tokens = append(g.Tokens, spec.Token{Name: "Uq", Decl: "undeclared"})
@@ -105,6 +105,20 @@ func injectC12(r *rand.Rand, g *spec.Grammar) string {
 			spec.Rule{Lhs: c, Rhs: []spec.Sym{{I: c}}, Prec: -1}, spec.Rule{Lhs: c, Rhs: []spec.Sym{{T: true, I: 0}}, Prec: -1})
 		insert(anyRule(), spec.Sym{I: a})
 		return "chain with unit self loop repaired by a terminal rule"
+	case 12: // %type'd nonterminal without rules, used somewhere (the rule keeps its other alternatives)
+		n := addNT("TypedGhost")
+		ru := anyRule()
+		g.Rules = append(g.Rules, spec.Rule{Lhs: ru.Lhs, Rhs: append(append([]spec.Sym{}, ru.Rhs...), spec.Sym{I: n}), Prec: -1})
+		return "%type'd nonterminal without rule used in an extra alternative"
+	case 13: // the same, but only in rules that are unreachable from the start symbol
+		n := addNT("TypedGhost")
+		u := addNT("Unreach")
+		g.Rules = append(g.Rules, spec.Rule{Lhs: u, Rhs: []spec.Sym{{T: true, I: 0}}, Prec: -1},
+			spec.Rule{Lhs: u, Rhs: []spec.Sym{{I: u}, {I: n}}, Prec: -1})
+		return "%type'd nonterminal without rule used only in unreachable rules"
+	case 14: // %type'd nonterminal without rules, never used
+		addNT("TypedGhost")
+		return "%type'd nonterminal without rule, never used"
 	case 10: // start symbol without rules
 		n := addNT("Nostart")
 		g.NTs[n].Tag = ""
@@ -183,7 +197,7 @@ func (c12) runOn(g *spec.Grammar, what string, injected bool, idx int) Outcome {
 		has[ru.Lhs] = true
 	}
 	for i := range g.NTs {
-		if !has[i] {
+		if !has[i] && g.NTs[i].Name != "TypedGhost" {
 			g.NTs[i].Tag = ""
 		}
 	}
